@@ -32,6 +32,9 @@ type Step struct {
 	When   int     `json:"when,omitempty"`   // 0 add, 1 pre-cell, 2 render, 3 post-cell
 	Target int     `json:"target,omitempty"` // 0 itself, 1 cell, 2 row
 	Via    string  `json:"via,omitempty"`
+	// Via2: the registration call is made on ANOTHER table object (RegisterPropertyCallback is a method of a
+	// table, but the callback belongs to the owner it names, wherever that owner lives).
+	Via2 bool `json:"via2,omitempty"`
 }
 
 type Case struct {
@@ -382,6 +385,8 @@ func (w *world) describe(r *reg) string {
 
 func CheckCase(c Case) *ev.Violation {
 	t := gen.NewTable(c.Creator)
+	other := tabular.New()
+	other.AddRowItems("unrelated")
 	w := &world{t: t, m: &gen.Model{}, marks: map[event]int{}}
 	byID := map[int]*reg{}
 	compare := func(step int, what string, pred []event) *ev.Violation {
@@ -446,7 +451,11 @@ func CheckCase(c Case) *ev.Violation {
 			w.nextID++
 			id := w.nextID
 			proto := &reg{id: id, owner: "cell", when: wRender, target: tItself}
-			if err := t.RegisterPropertyCallback(&cell, tabular.CB_AT_RENDER, tabular.CB_ON_ITSELF, &recorder{r: proto, w: w}); err != nil {
+			var registrar tabular.Table = t
+			if st.Via2 {
+				registrar = other
+			}
+			if err := registrar.RegisterPropertyCallback(&cell, tabular.CB_AT_RENDER, tabular.CB_ON_ITSELF, &recorder{r: proto, w: w}); err != nil {
 				return ev.V("step %d: registering a render callback on a stand-alone cell failed: %v", step, err)
 			}
 			byID[id] = proto
@@ -517,7 +526,12 @@ func CheckCase(c Case) *ev.Violation {
 			}
 			w.nextID++
 			r.id = w.nextID
-			err := t.RegisterPropertyCallback(owner, whens[r.when], targets[r.target], &recorder{r: r, w: w})
+			var registrar tabular.Table = t
+			if st.Via2 && st.Owner != "table" {
+				// (a table named as owner through another table's method is ambiguous when it is a wrapper)
+				registrar = other
+			}
+			err := registrar.RegisterPropertyCallback(owner, whens[r.when], targets[r.target], &recorder{r: r, w: w})
 			unsupported := (st.Owner == "column" || st.Owner == "cell" || st.Owner == "hdrcell") && r.target == tRow
 			if unsupported != (err != nil) {
 				return ev.V("step %d: registering %s returned error %v; unsupported combination: %v", step, w.describe(r), err, unsupported)
